@@ -26,6 +26,8 @@ class Case:
         js = ["G " + " ".join(self.settings) + " " + hx(self.text)]
         for (algo, partial, inp, _m) in self.inputs:
             prev = (" " + hx(_m["prev"])) if isinstance(_m, dict) and _m.get("prev") is not None else ""
+            if isinstance(_m, dict) and _m.get("file"):
+                prev = (prev or " -") + " F"
             js.append(f"P {algo} {partial} {getattr(self, 'max_trees', 64)} {hx(inp)}{prev}")
         return js
 
@@ -35,6 +37,8 @@ class Case:
             algo, partial, inp, meta = self.inputs[k]
             if isinstance(meta, dict) and meta.get("prev") is not None:
                 d["parsed_before_with_the_same_parser_object"] = meta["prev"]
+            if isinstance(meta, dict) and meta.get("file"):
+                d["also_parsed_through_parse_file"] = True
             d.update({"algo": algo, "partial": partial, "input": inp, "input_hex": hx(inp),
                       "impl": self.results[k] if k < len(self.results) else None,
                       "model": self.model[k] if k < len(self.model) else None})
@@ -95,11 +99,23 @@ def run_cases(cases, model=True, extra_requests=None, parse_model=True):
     return cases
 
 
+def add_file_mode(rng, cases, p=0.08):
+    """with probability p an input is ALSO parsed through `parse_file` (written to a file first) by the harness, which
+    compares tree (values by content, spans, layout) or error with `parse` on the same text and answers
+    `ok FILE-MISMATCH ...` when they differ — every oracle then fails on that input (unparsable answer)"""
+    for c in cases:
+        for (algo, partial, inp, meta) in c.inputs:
+            if isinstance(meta, dict) and "@" not in algo and rng.random() < p:
+                meta["file"] = True
+    return cases
+
+
 def add_histories(rng, cases, p=0.25):
     """parser objects are reusable: with probability p an input is parsed by a parser object that parsed another input
     of the same case first (preferring one that is rejected after something was shifted); the expected answer is that
     of a fresh parser (the model is stateless), so any state leaking from one parse into the next shows up in every
     oracle and in the correspondence"""
+    add_file_mode(rng, cases)
     for c in cases:
         if len(c.inputs) < 2:
             continue
@@ -112,6 +128,10 @@ def add_histories(rng, cases, p=0.25):
 
 
 def apply_replay_history(c, p):
+    if p.get("also_parsed_through_parse_file"):
+        for (_, _, _, meta) in c.inputs:
+            if isinstance(meta, dict):
+                meta["file"] = True
     prev = p.get("parsed_before_with_the_same_parser_object")
     if prev is not None:
         for (_, _, _, meta) in c.inputs:
